@@ -97,22 +97,22 @@ def plan(tier, seed):
     specs = []
     b = seed * 1000
     for i in range(6 if q else 16):
-        specs.append({'mode': 'cap', 'seed': b + i, 'scripts': 8 if q else 30,
+        specs.append({'mode': 'cap', 'seed': b + i, 'scripts': 8 if q else 25,
                       'ops': 300 if q else 500})
     fl = ['thread', 'fork', 'mixed']
-    for i in range(15 if q else 45):
+    for i in range(15 if q else 54):
         f = fl[i % 3]
         specs.append({'mode': 'xfer', 'seed': b + 100 + i, 'flavour': f,
-                      'scenarios': (6 if f == 'thread' else 3) * (1 if q else 3),
-                      'scale': 0.7 if q else 1.5})
+                      'scenarios': (6 if f == 'thread' else 3) if q else (14 if f == 'thread' else 7),
+                      'scale': 0.7 if q else 1.4})
     for i in range(2 if q else 6):
         specs.append({'mode': 'xfer', 'seed': b + 200 + i,
-                      'scenarios': 2 if q else 5, 'scale': 0.5 if q else 1.0,
+                      'scenarios': 2 if q else 4, 'scale': 0.5 if q else 1.0,
                       'flavour': ['spawn', 'forkserver'][i % 2]})
     for i in range(4 if q else 10):
         specs.append({'mode': 'join', 'seed': b + 300 + i,
-                      'scenarios': 8 if q else 22})
-    for i in range(4 if q else 10):
+                      'scenarios': 8 if q else 20})
+    for i in range(4 if q else 8):
         specs.append({'mode': 'empty', 'seed': b + 400 + i,
                       'scenarios': 4 if q else 10})
     return specs
@@ -872,23 +872,7 @@ def judge_xfer(rec, cfg, attrs, logs, plines, slines, hang, surplus, sem_end, in
 
     # hang
     complete = hang is None and not errors
-    if hang is not None:
-        n_out = len(puts) - len({(g[2], g[3]) for g in gets})
-        if hang in ('producers', 'sentinels'):
-            symptom = ('put_blocked_or_refused_with_queue_drained' if n_out <= 0
-                       else 'put_blocked_while_items_outstanding')
-        elif hang == 'consumers':
-            symptom = 'consumers_starved'
-        else:
-            symptom = 'join_never_returned'
-        kind = 'join_not_returning' if hang == 'joiners' else 'transfer_stalled'
-        V(kind, dict(attrs, symptom=symptom), phase=hang, stall_s=STALL_S,
-          puts_returned=len(puts), gets_returned=len(gets), outstanding=n_out,
-          fulls=len(fulls), empties=len(empties), unfinished=unfinished_logs,
-          alive=[(p.role, p.k, p.how) for p in parties if p.alive()], scenario=brief)
-    elif unfinished_logs and not errors:
-        # a process died without finishing its log: harness trouble unless a
-        # queue operation killed it
+    if hang is None and unfinished_logs and not errors:
         raise RuntimeError('participant ended without finishing its log: %r' % (unfinished_logs,))
 
     # 1. payload integrity
@@ -953,7 +937,9 @@ def judge_xfer(rec, cfg, attrs, logs, plines, slines, hang, surplus, sem_end, in
     n_full = len(fulls)
     rec.count('full_raised', n_full)
     reached = False
-    if cfg['qkind'] != 'SimpleQueue':
+    if cfg['qkind'] != 'SimpleQueue' and not errors and not bad:
+        # (a get that raised after reading a message released a place without
+        # being logged as a get: the counting bounds below need clean logs)
         if maxsize:
             ev = [(v[1], 1) for v in puts.values()] + [(g[0], -1) for g in gets]
             ev.sort()
@@ -1016,6 +1002,28 @@ def judge_xfer(rec, cfg, attrs, logs, plines, slines, hang, surplus, sem_end, in
             rec.count('surplus_task_done_refused')
         elif surplus is not None and complete and not refused:
             V('surplus_task_done_accepted', attrs, outcome=surplus, scenario=brief)
+
+    # hang: a wall-clock verdict (re-run alone by the driver); only reported
+    # when no stamp/tag oracle has already decided this spec
+    if hang is not None:
+        n_out = len(puts) - len({(g[2], g[3]) for g in gets})
+        if hang in ('producers', 'sentinels'):
+            symptom = ('put_blocked_or_refused_with_queue_drained' if n_out <= 0
+                       else 'put_blocked_while_items_outstanding')
+        elif hang == 'consumers':
+            symptom = 'consumers_starved'
+        else:
+            symptom = 'join_never_returned'
+        kind = 'join_not_returning' if hang == 'joiners' else 'transfer_stalled'
+        detail = dict(phase=hang, stall_s=STALL_S, puts_returned=len(puts),
+                      gets_returned=len(gets), outstanding=n_out, fulls=len(fulls),
+                      empties=len(empties), unfinished=unfinished_logs,
+                      alive=[(p.role, p.k, p.how) for p in parties if p.alive()],
+                      scenario=brief)
+        if any(v['kind'] not in CONFIRM_ALONE for v in rec.violations):
+            rec.anomaly(kind, symptom=symptom, **detail)
+        else:
+            V(kind, dict(attrs, symptom=symptom), **detail)
 
     # evidence
     big = [g for g in gets if g[4] > PIPE]
